@@ -208,3 +208,56 @@ def check_result_name(model, R, P, ops):
                 bad.append(x)
         R.ob(P + '.RESULT-NAME', op.qual, 'result name: %s' % [norm(b)[:50] for b in bad][:2], not bad,
              'a name computed from the operands stores the expression text of the whole history in the result', _loc(func, bad[0]) if bad else func.loc)
+
+
+def _doc_args(fnode):
+    """parameter names in the order the docstring's Args / Parameters section lists them"""
+    doc = ast.get_docstring(fnode) or ''
+    out, on = [], False
+    import re
+    for line in doc.splitlines():
+        t = line.strip()
+        if re.match(r'^(Args|Arguments|Parameters)\s*:?\s*$', t):
+            on = True
+            continue
+        if on:
+            if re.match(r'^(Returns?|Raises|Examples?|Reference|Notes?)\s*:?', t) or t.startswith('>>>'):
+                break
+            m = re.match(r'^([A-Za-z_][A-Za-z_0-9]*)\s*(\([^)]*\))?\s*:', t)
+            if m:
+                out.append(m.group(1))
+    return out
+
+
+def check_signature_order(model, R, P, quals, synonyms=None, siblings=()):
+    """the positional order of the parameters is part of the contract (callers pass hyper-parameters positionally): it must be the order the docstring documents, and
+    sibling constructors / initialisers must agree with each other on names, order and defaults"""
+    synonyms = synonyms or {}
+    R.rule(P + '.SIGNATURE', 'positional parameters come in the documented order (the Args section of the docstring, which cites the reference API) and sibling functions agree on the order and the defaults of the '
+                             'parameters they share: a swapped pair binds positional arguments to the wrong role without any error', floor=len(quals))
+    sig = {}
+    for q in quals:
+        f = model.funcs.get(q)
+        if f is None:
+            R.incomplete_at(P + '.SIGNATURE', q, 'function not found')
+            continue
+        a = f.node.args
+        params = [x.arg for x in a.posonlyargs + a.args if x.arg not in ('self', 'cls')]
+        defaults = dict(zip([x.arg for x in (a.posonlyargs + a.args)][len(a.posonlyargs + a.args) - len(a.defaults):], [norm(d) for d in a.defaults]))
+        sig[q] = (params, defaults)
+        doc = [synonyms.get(d, d) for d in _doc_args(f.node)]
+        doc = [d for d in doc if d in params]
+        listed = [p for p in params if p in doc]
+        ok = bool(doc) and listed == doc
+        R.ob(P + '.SIGNATURE', q, 'signature %s / documented %s' % (params, doc), ok or not doc,
+             'the documented parameter order is %s; positional callers following the documentation (or the reference API it cites) get %s' % (doc, params), f.loc)
+    for group in siblings:
+        have = [q for q in group if q in sig]
+        for q in have[1:]:
+            p0, d0 = sig[have[0]]
+            p1, d1 = sig[q]
+            shared = [p for p in p0 if p in p1]
+            same_order = shared == [p for p in p1 if p in p0]
+            same_defaults = all(d0.get(p) == d1.get(p) for p in shared)
+            R.ob(P + '.SIGNATURE', q, 'agrees with %s on %s' % (have[0].split('.')[-2] if have[0].endswith('__init__') else have[0].split('.')[-1], shared), same_order and same_defaults,
+                 'sibling signatures differ: %s %s vs %s %s' % (p0, {p: d0.get(p) for p in shared}, p1, {p: d1.get(p) for p in shared}), model.funcs[q].loc)
